@@ -15,7 +15,8 @@ from concurrent.futures import ThreadPoolExecutor
 VERIF = os.path.dirname(os.path.dirname(os.path.abspath(__file__)))
 REPO = os.environ.get("VERIF_REPO", "/repo")
 BUILD = os.path.join(VERIF, "build")
-BIN = os.path.join(BUILD, "bin")
+COVER = os.environ.get("VERIF_COVER") == "1"      # tools/coverage.py: instrumented binaries in a separate directory
+BIN = os.path.join(BUILD, "bin-cover" if COVER else "bin")
 LEAN = os.path.join(VERIF, "lean")
 HARNESS = os.path.join(VERIF, "harness")
 EVID = os.path.join(VERIF, "evidence")
@@ -74,6 +75,8 @@ def build_go(cover=False, race=False):
         if want != gomod:
             open(os.path.join(HARNESS, "go.mod"), "w").write(want)
         flags = ["-tags", "verif"]
+        if COVER:
+            flags += ["-cover", "-coverpkg=github.com/gopatchy/bkl/..."]
         r = sh(["go", "build"] + flags + ["-o", os.path.join(BIN, "bklgo"), "./cmd/bklgo"], cwd=HARNESS, env=GOENV, check=False)
         if r.returncode != 0:
             fails["bklgo"] = r.stderr[-3000:]
